@@ -1,6 +1,6 @@
 // priv: bindings of spec/Privileges.tla (C39, C41) and spec/Auth.tla (C40) to the real engine.
 //
-//	-mode replay   TLC-generated histories / transitions -> real SQL as root on an engine with the
+//	-mode replay   TLC-generated histories / transitions -> real SQL by a super user on an engine with the
 //	               mysql privilege database enabled, probe matrix as every user, optional
 //	               persist/reload comparison; writes the trace Trace_Privileges.tla validates.
 //	-mode sql      debugging aid: "<user>\t<statement>" lines from stdin.
